@@ -374,3 +374,91 @@ Proof.
   - cbn [bind]. apply fin_pack_tail; [exact V|]. rewrite fin_body_eq. unfold fin_fault_layout, fin_fault_emitted.
     rewrite Ft. destruct (fault_allowed (fn_cc q)); rewrite app_nil_r, <- !app_assoc; reflexivity.
 Qed.
+
+(* ================= CRC trailer helpers (shared with MetadataProofs) ================= *)
+
+Definition crc_tail (c : PduConfig) (pre : bytes) : bytes :=
+  if cf_crc c =? 1 then be_encode 2 (crc16 pre) else [].
+
+Lemma with_crc_split c pre : with_crc c pre = pre ++ crc_tail c pre.
+Proof. unfold with_crc, crc_tail. destruct (cf_crc c =? 1); [reflexivity|rewrite app_nil_r; reflexivity]. Qed.
+
+Lemma crc_tail_len c pre : len (crc_tail c pre) = crc_octets c.
+Proof. unfold crc_tail, crc_octets. destruct (cf_crc c =? 1); [apply len_be_encode|reflexivity]. Qed.
+
+Lemma crc_tail_wf c pre : wf_bytes (crc_tail c pre).
+Proof. unfold crc_tail. destruct (cf_crc c =? 1); [apply be_encode_wf|constructor]. Qed.
+
+Lemma verify_with_crc c h pre rest :
+  wf_bytes pre -> flag (cf_crc c) -> cf_crc (h_conf h) = cf_crc c -> 2 <= hdr_packet_len h ->
+  hdr_packet_len h = len pre + crc_octets c ->
+  hdr_verify_length_and_checksum h (with_crc c pre ++ rest) = Ok (hdr_packet_len h).
+Proof.
+  intros W F E P L. pose proof (len_nonneg rest).
+  destruct (crc_octets_cases c F) as [[C O] | [C O]]; unfold with_crc; rewrite C; cbn [Z.eqb Pos.eqb]; rewrite O in L.
+  - apply hdr_verify_nocrc; [exact P|congruence|rewrite len_app; lia].
+  - apply hdr_verify_crc; [exact W|congruence|exact L].
+Qed.
+
+(* ================= unpack: the TLV loop ================= *)
+
+Definition ent_layout (e : option bytes) : bytes :=
+  match e with Some v => entity_layout v | None => [] end.
+Definition ent_tlv (e : option bytes) (dflt : option tlv) : option tlv :=
+  match e with Some v => Some {| tlv_type := TLV_ENTITY_ID; tlv_value := v |} | None => dflt end.
+
+Lemma py_get_resp pre r X : py_get (pre ++ resp_layout r ++ X) (len pre) = Ok TLV_FILESTORE_RESPONSE.
+Proof. unfold resp_layout, fsresp_layout, tlv_layout. cbn [app]. apply py_get_at. reflexivity. Qed.
+
+(* generalised "decode the rest": the loop started behind any prefix of the TLV area, with any
+   accumulator, decodes the remaining responses in order and then the entity-ID TLV *)
+Lemma fin_tlv_loop_spec rs : forall fuel pre acc fl0 ent might rest,
+  Forall resp_valid rs ->
+  match ent with Some v => len v <= 255 /\ might = true | None => True end ->
+  (rs <> [] \/ ent <> None) ->
+  (length rs + 1 <= fuel)%nat ->
+  rest = pre ++ cat resp_layout rs ++ ent_layout ent ->
+  fin_tlv_loop fuel might rest (len pre) acc fl0 = Ok (acc ++ map resp_norm rs, ent_tlv ent fl0).
+Proof.
+  induction rs as [|r rs IH]; intros fuel pre acc fl0 ent might rest F He Hne Hf ->.
+  - (* only the entity-ID TLV is left *)
+    destruct ent as [v|]; [|destruct Hne as [X|X]; congruence]. destruct He as (Lv & ->).
+    destruct fuel as [|fuel]; [cbn in Hf; lia|]. cbn [fin_tlv_loop cat ent_layout app map].
+    unfold entity_layout, tlv_layout. rewrite py_get_at by reflexivity. cbn [bind].
+    change (T_ENTITY_ID =? TLV_FILESTORE_RESPONSE) with false. change (T_ENTITY_ID =? TLV_ENTITY_ID) with true.
+    cbn [negb]. rewrite slice_from_at by reflexivity.
+    destruct (wrappers_roundtrip v [] Lv) as (U & _). unfold entity_layout, tlv_layout in U. rewrite app_nil_r in U.
+    rewrite U. cbn [bind]. unfold tlv_packet_len. cbn [tlv_value].
+    rewrite len_app, !len_cons. pose proof (len_nonneg v).
+    destruct (len pre + (2 + len v) >=? len pre + (1 + (1 + len v))) eqn:E; [|lia].
+    rewrite app_nil_r. reflexivity.
+  - inversion F as [|? ? Hr Frs]; subst.
+    destruct fuel as [|fuel]; [cbn in Hf; lia|]. cbn [fin_tlv_loop cat map].
+    rewrite <- app_assoc. rewrite py_get_resp. cbn [bind].
+    rewrite Z.eqb_refl. rewrite slice_from_at by reflexivity.
+    rewrite resp_valid_unpack by exact Hr. cbn [bind].
+    rewrite <- resp_layout_len, resp_layout_norm.
+    rewrite !len_app.
+    pose proof (len_nonneg (cat resp_layout rs)) as N1. pose proof (len_nonneg (ent_layout ent)) as N2.
+    destruct rs as [|r2 rs].
+    + destruct ent as [v|].
+      * (* continue with the entity ID *)
+        destruct (len pre + len (resp_layout r) >=? _) eqn:E.
+        { cbn [cat ent_layout] in E. unfold entity_layout, tlv_layout in E. rewrite !len_cons in E.
+          pose proof (len_nonneg v). rewrite ?len_nil in E. lia. }
+        replace (len pre + len (resp_layout r)) with (len (pre ++ resp_layout r)) by (rewrite len_app; reflexivity).
+        rewrite (IH fuel (pre ++ resp_layout r) (acc ++ [resp_norm r]) fl0 (Some v) might).
+        { rewrite <- app_assoc. reflexivity. }
+        { constructor. } { exact He. } { right. discriminate. } { cbn [length] in *. lia. }
+        { rewrite <- app_assoc. reflexivity. }
+      * cbn [cat ent_layout app]. rewrite ?len_nil.
+        destruct (_ >=? _) eqn:E; [reflexivity|lia].
+    + destruct (len pre + len (resp_layout r) >=? _) eqn:E.
+      { cbn [cat] in E. rewrite len_app in E. destruct (resp_layout_head r2) as (tl2 & Hd2). rewrite Hd2 in E.
+        rewrite len_cons in E. pose proof (len_nonneg tl2). pose proof (len_nonneg (cat resp_layout rs)). lia. }
+      replace (len pre + len (resp_layout r)) with (len (pre ++ resp_layout r)) by (rewrite len_app; reflexivity).
+      rewrite (IH fuel (pre ++ resp_layout r) (acc ++ [resp_norm r]) fl0 ent might).
+      { rewrite <- app_assoc. reflexivity. }
+      { exact Frs. } { exact He. } { left. discriminate. } { cbn [length] in *. lia. }
+      { rewrite <- app_assoc. reflexivity. }
+Qed.
